@@ -196,3 +196,140 @@ func checkRemoteForwardCondition(c *Ctx, res *report.Result, rule string) {
 		res.Check(bad == "", rule, construct, instrPos(c.Prog, fwd), "memberlistConfig != nil, owner known, owner != this node, address known", bad+": messages for a shard owned by another instance are not forwarded to it (or are 'forwarded' to oneself), and the caller retries for ever")
 	}
 }
+
+// checkSendChanClosedOnExit (O8.12): proxyStreamSender.Run closes its delivery channel once its latch is tripped, on
+// every way to its return. A deliverer blocked in `ch <- msg` on a full channel of a sender whose peer stopped
+// reading is woken only by that close (the send panics, the recover guard of O8.2 turns it into "not delivered", and
+// the caller retries on the successor's channel); without it the deliverer stays blocked until its own receiver
+// is shut down, and everything queued behind that message with it.
+func checkSendChanClosedOnExit(c *Ctx, res *report.Result, rule string) {
+	f := resolve(c, res, rule, anchor{"proxy", "*proxyStreamSender", "Run"})
+	if f == nil {
+		return
+	}
+	var wait ssa.Instruction
+	for _, b := range f.Blocks {
+		for _, ins := range b.Instrs {
+			if u, ok := ins.(*ssa.UnOp); ok && u.Op == token.ARROW {
+				if call, isC := u.X.(*ssa.Call); isC && call.Call.IsInvoke() && call.Call.Method.Name() == "Channel" {
+					wait = u
+				}
+			}
+		}
+	}
+	isClose := func(x ssa.Instruction) bool {
+		call, ok := x.(ssa.CallInstruction)
+		if !ok {
+			return false
+		}
+		bi, isB := call.Common().Value.(*ssa.Builtin)
+		if !isB || bi.Name() != "close" {
+			return false
+		}
+		p, okp := flow.FieldPath(call.Common().Args[0])
+		return okp && strings.HasSuffix(p, ".sendMsgChan")
+	}
+	construct := "proxyStreamSender.Run closes sendMsgChan after its latch tripped"
+	if wait == nil {
+		res.Undec(rule, construct, fnPos(c.Prog, f), "no wait on the shutdown latch found")
+		return
+	}
+	r := flow.FindPath(flow.After(wait), flow.IsReturn, isClose, nil)
+	res.Check(!r.Found, rule, construct, instrPos(c.Prog, wait), "every way from the latch to the return passes close(s.sendMsgChan)", "Run can return without closing its delivery channel (path "+flow.BlockPath(r.Via)+"): a deliverer blocked on the full channel of this dead incarnation is never woken, and the batch it carries - and every batch behind it - waits until the source stream itself is torn down")
+}
+
+// checkReplayChain (O3.11): the watermark replay to a (re)registered target shard travels through a chain of calls,
+// each of which is made on every path of its link (legitimate ways around: `added == false`, another cluster's
+// receiver): SetupCallbacks installs the local- and remote-shard-change callbacks; each callback, when a shard was
+// added, calls notifyReceiversOfNewShard; that calls NotifyNewTargetShard on every receiver of the same cluster;
+// every implementation of NotifyNewTargetShard calls sendPendingWatermarkToShard. O8.10 is the first link
+// (RegisterShard -> onLocalShardChange), O1.6 the content of what is replayed.
+func checkReplayChain(c *Ctx, res *report.Result, rule string) {
+	callsNamed := func(name string) func(ssa.Instruction) bool {
+		return func(x ssa.Instruction) bool {
+			call, ok := x.(ssa.CallInstruction)
+			if !ok {
+				return false
+			}
+			cc := call.Common()
+			if cc.IsInvoke() {
+				return cc.Method.Name() == name
+			}
+			sc := flow.StaticCallee(cc)
+			return sc != nil && sc.Name() == name
+		}
+	}
+	mustCall := func(f *ssa.Function, what, callee string, edgeOK func(a, b *ssa.BasicBlock) bool, why string) {
+		r := flow.FindPath(flow.Point{Block: f.Blocks[0]}, flow.IsReturn, callsNamed(callee), edgeOK)
+		res.Check(!r.Found, rule, what, fnPos(c.Prog, f), "every path calls "+callee, "a path avoids the call of "+callee+" ("+flow.BlockPath(r.Via)+"): "+why)
+	}
+	lost := "a target shard that (re)registers after the source went idle is never sent the source's last watermark, nothing else will be sent to it either, and the aggregated acknowledgement waits for that target for ever"
+	if f := resolve(c, res, rule, anchor{"proxy", "*shardManagerImpl", "SetupCallbacks"}); f != nil {
+		for _, setter := range []string{"setOnLocalShardChange", "setOnRemoteShardChange"} {
+			mustCall(f, "SetupCallbacks installs the callback via "+setter, setter, nil, "the shard-change callback is never installed; "+lost)
+			// the installed literal
+			for _, call := range flow.Calls(f) {
+				sc := flow.StaticCallee(call.Common())
+				if sc == nil || sc.Name() != setter || len(call.Common().Args) < 2 {
+					continue
+				}
+				mc, ok := call.Common().Args[1].(*ssa.MakeClosure)
+				if !ok {
+					res.Undec(rule, setter+": installed callback", instrPos(c.Prog, call), "not a function literal")
+					continue
+				}
+				lit := mc.Fn.(*ssa.Function)
+				var added *ssa.Parameter
+				for _, p := range lit.Params {
+					if p.Name() == "added" || p.Type().String() == "bool" {
+						added = p
+					}
+				}
+				mustCall(lit, "the callback installed by "+setter+" replays to a shard that was added", "notifyReceiversOfNewShard", func(a, b *ssa.BasicBlock) bool {
+					for _, g := range flow.NormGuards(flow.EdgeGuards(a, b)) {
+						if added != nil && g.Cond == ssa.Value(added) && !g.Side {
+							return false
+						}
+					}
+					return true
+				}, lost)
+			}
+		}
+	}
+	if f := resolve(c, res, rule, anchor{"proxy", "*shardManagerImpl", "notifyReceiversOfNewShard"}); f != nil {
+		// inside the loop over the receivers: every iteration notifies, other than for a receiver of another cluster
+		var notify ssa.Instruction
+		for _, call := range flow.Calls(f) {
+			if call.Common().IsInvoke() && call.Common().Method.Name() == "NotifyNewTargetShard" {
+				notify = call
+			}
+		}
+		if notify == nil {
+			res.Viol(rule, "notifyReceiversOfNewShard notifies the receivers", fnPos(c.Prog, f), "no NotifyNewTargetShard call: "+lost)
+		} else {
+			okG := true
+			why := ""
+			for _, g := range flow.NormGuards(flow.Guards(notify.Block())) {
+				bo, isB := g.Cond.(*ssa.BinOp)
+				if !isB {
+					continue
+				}
+				if bo.Op == token.LSS {
+					continue // range test
+				}
+				px, _ := flow.FieldPath(bo.X)
+				py, _ := flow.FieldPath(bo.Y)
+				if strings.HasSuffix(px, "ClusterID") && strings.HasSuffix(py, "ClusterID") && ((bo.Op == token.EQL && g.Side) || (bo.Op == token.NEQ && !g.Side)) {
+					continue
+				}
+				okG, why = false, "notified only under "+flow.Describe(g.Cond)
+			}
+			res.Check(okG, rule, "notifyReceiversOfNewShard notifies every receiver that routes to the new shard's cluster", instrPos(c.Prog, notify), "only the cluster-id test guards the call", why+": "+lost)
+		}
+	}
+	for _, recv := range []string{"*proxyStreamReceiver", "*intraProxyStreamReceiver"} {
+		if f := resolve(c, res, rule, anchor{"proxy", recv, "NotifyNewTargetShard"}); f != nil {
+			mustCall(f, "("+recv+").NotifyNewTargetShard replays the pending watermark", "sendPendingWatermarkToShard", nil, lost)
+		}
+	}
+}
